@@ -43,6 +43,83 @@ fn forms(out: &mut Out, name: &str, cls: &str, a: &Ciphertext, other: Option<&Ci
     }
 }
 
+/// the three forms of a PLAINTEXT-valued operation (value-returning, destination pre-filled with an unrelated plaintext, in place)
+fn plain_forms(out: &mut Out, name: &str, cls: &str, p: &Plaintext, dirty: &Plaintext,
+               newf: &dyn Fn(&Plaintext) -> Plaintext, destf: &dyn Fn(&Plaintext, &mut Plaintext), inpf: &dyn Fn(&mut Plaintext)) {
+    let pt_eq = |a: &Plaintext, b: &Plaintext| a.data() == b.data() && a.parms_id() == b.parms_id() && a.coeff_count() == b.coeff_count() && a.scale().to_bits() == b.scale().to_bits() && a.is_ntt_form() == b.is_ntt_form();
+    let p0 = p.clone();
+    let r = std::panic::catch_unwind(std::panic::AssertUnwindSafe(|| { let r1 = newf(p); let mut r2 = dirty.clone(); destf(p, &mut r2); let mut r3 = p.clone(); inpf(&mut r3); (r1, r2, r3) }));
+    match r {
+        Err(_) => out.raw(&format!("!NOTE forms {} refused on these operands", name)),
+        Ok((r1, r2, r3)) => {
+            let same = pt_eq(&r1, &r2) && pt_eq(&r1, &r3); let untouched = pt_eq(p, &p0);
+            if same && untouched { out.raw(&format!("!OK forms {} # {}", name, cls)); }
+            else { out.raw(&format!("!FAIL forms {} :: forms-agree={} operands-untouched={} # {}", name, same, untouched, cls)); }
+        }
+    }
+}
+
+/// forms that the table in `run` lacked (API census): `transform_plain_to_ntt` at every level, `apply_galois_plain` (coefficient-form, NTT-form and CKKS
+/// plaintexts), `add_many` (destination / value-returning) on operands of mixed sizes, `multiply_many` (one form only: the result must not depend on the
+/// old content of the destination), `apply_keyswitching`; read-only operands untouched
+fn census_forms(out: &mut Out, s: &Setup, cls: &str, c1: &Ciphertext, c2: &Ciphertext, prod: &Ciphertext, plain: &Plaintext, relin: &RelinKeys) {
+    let ev = &s.evaluator; let n = s.n;
+    if s.scheme == SchemeType::CKKS {
+        let other = { let enc = CKKSEncoder::new(s.ctx.clone()); enc.encode_f64_single_new(2.5, Some(*s.levels().last().unwrap()), 16.0) };
+        for g in [3usize, 2 * n - 1] { plain_forms(out, &format!("apply_galois_plain-ckks-g{}", g), cls, plain, &other, &|p| ev.apply_galois_plain_new(p, g), &|p, d| ev.apply_galois_plain(p, g, d), &|p| ev.apply_galois_plain_inplace(p, g)); }
+    } else {
+        // (full-length plaintext: GaloisTool::apply indexes one past a SHORT operand — recorded in DESIGN.md §7, outside every property)
+        let pfull = { let mut p = plain.clone(); p.resize(n); p };
+        let mut prev: Plaintext = plain.clone();
+        for (li, pid) in s.levels().iter().enumerate() {
+            plain_forms(out, &format!("transform_plain_to_ntt@{}", li), cls, &pfull, &prev, &|p| ev.transform_plain_to_ntt_new(p, pid), &|p, d| ev.transform_plain_to_ntt(p, pid, d), &|p| ev.transform_plain_to_ntt_inplace(p, pid));
+            plain_forms(out, &format!("transform_plain_to_ntt-short@{}", li), cls, plain, &prev, &|p| ev.transform_plain_to_ntt_new(p, pid), &|p, d| ev.transform_plain_to_ntt(p, pid, d), &|p| ev.transform_plain_to_ntt_inplace(p, pid));
+            if let Ok(pn) = std::panic::catch_unwind(std::panic::AssertUnwindSafe(|| ev.transform_plain_to_ntt_new(&pfull, pid))) {
+                for g in [3usize, 2 * n - 1] { plain_forms(out, &format!("apply_galois_plain-ntt@{}-g{}", li, g), cls, &pn, &pfull, &|p| ev.apply_galois_plain_new(p, g), &|p, d| ev.apply_galois_plain(p, g, d), &|p| ev.apply_galois_plain_inplace(p, g)); }
+                prev = pn;
+            }
+        }
+        for g in [3usize, 2 * n - 1] { plain_forms(out, &format!("apply_galois_plain-g{}", g), cls, &pfull, &prev, &|p| ev.apply_galois_plain_new(p, g), &|p, d| ev.apply_galois_plain(p, g, d), &|p| ev.apply_galois_plain_inplace(p, g)); }
+    }
+    // add_many: 1..4 operands, sizes 2 and 3 mixed, destination = an unrelated ciphertext of the other size
+    // (CKKS: the product carries the squared scale and may not be added to fresh ciphertexts — sizes are not mixed there)
+    let pool = if s.scheme == SchemeType::CKKS { [c1.clone(), c2.clone(), c2.clone(), c1.clone()] } else { [c1.clone(), prod.clone(), c2.clone(), c1.clone()] };
+    for k in 1..=4usize {
+        let ops: Vec<Ciphertext> = pool[..k].to_vec(); let before = ops.clone();
+        let r = std::panic::catch_unwind(std::panic::AssertUnwindSafe(|| { let a = ev.add_many_new(&ops); let mut d = if k % 2 == 0 { c2.clone() } else { prod.clone() }; ev.add_many(&ops, &mut d); let mut f = Ciphertext::new(); ev.add_many(&ops, &mut f); (a, d, f) }));
+        match r {
+            Err(_) => out.raw(&format!("!NOTE forms add_many-k{} refused on these operands", k)),
+            Ok((a, d, f)) => { let same = ct_eq(&a, &d) && ct_eq(&a, &f); let untouched = ops.iter().zip(&before).all(|(x, y)| ct_eq(x, y));
+                if same && untouched { out.raw(&format!("!OK forms add_many-k{} # {}", k, cls)); } else { out.raw(&format!("!FAIL forms add_many-k{} :: forms-agree={} operands-untouched={} # {}", k, same, untouched, cls)); } }
+        }
+    }
+    if s.scheme != SchemeType::CKKS {
+        for k in 1..=2usize {
+            let ops: Vec<Ciphertext> = [c1.clone(), c2.clone()][..k].to_vec(); let before = ops.clone();
+            let r = std::panic::catch_unwind(std::panic::AssertUnwindSafe(|| { let mut f = Ciphertext::new(); ev.multiply_many(&ops, relin, &mut f); let mut d = prod.clone(); ev.multiply_many(&ops, relin, &mut d); (f, d) }));
+            match r {
+                Err(_) => out.raw(&format!("!NOTE forms multiply_many-k{} refused on these operands", k)),
+                Ok((f, d)) => { let same = ct_eq(&f, &d); let untouched = ops.iter().zip(&before).all(|(x, y)| ct_eq(x, y));
+                    if same && untouched { out.raw(&format!("!OK forms multiply_many-k{} # {}", k, cls)); } else { out.raw(&format!("!FAIL forms multiply_many-k{} :: fresh-and-used-destination-agree={} operands-untouched={} # {}", k, same, untouched, cls)); } }
+            }
+        }
+    }
+    // key switching from another secret key to this generator's key (no randomness is drawn: all forms bit-identical)
+    if s.ctx.using_keyswitching() {
+        let made = std::panic::catch_unwind(std::panic::AssertUnwindSafe(|| {
+            let kg2 = KeyGenerator::new(s.ctx.clone());
+            let ksk = s.keygen.create_keyswitching_key(kg2.secret_key(), false);
+            let enc2 = Encryptor::new(s.ctx.clone()).set_secret_key(kg2.secret_key().clone());
+            let mut ct2 = Ciphertext::new(); enc2.encrypt_zero_symmetric(&mut ct2);
+            (ksk, ct2) }));
+        if let Ok((ksk, ct2)) = made {
+            forms(out, "apply_keyswitching", cls, &ct2, Some(prod), &|a| ev.apply_keyswitching_new(a, &ksk), &|a, d| ev.apply_keyswitching(a, &ksk, d), &|a| ev.apply_keyswitching_inplace(a, &ksk));
+            if let Ok(lower) = std::panic::catch_unwind(std::panic::AssertUnwindSafe(|| ev.mod_switch_to_next_new(&ct2))) {
+                forms(out, "apply_keyswitching@1", cls, &lower, Some(c2), &|a| ev.apply_keyswitching_new(a, &ksk), &|a, d| ev.apply_keyswitching(a, &ksk, d), &|a| ev.apply_keyswitching_inplace(a, &ksk)); }
+        }
+    }
+}
+
 /// Larger degrees with 59/60-bit primes (lazy reductions inside the transforms only leave unreduced words when the values are close to
 /// the word size and enough butterfly layers accumulate): every result of every operation must still be valid (canonical residues, consistent
 /// metadata) — decided by `is_valid_for` and by acceptance of the result as an operand; the case lines of such ciphertexts would be too long
@@ -229,6 +306,7 @@ pub fn run(out: &mut Out, thorough: bool, seed: u64, _extra: &[String]) {
             forms(out, "transform_to_ntt", &cls, &c1, Some(&c2), &|a| ev.transform_to_ntt_new(a), &|a, d| ev.transform_to_ntt(a, d), &|a| ev.transform_to_ntt_inplace(a));
             forms(out, "transform_from_ntt", &cls, &nt, Some(&c2), &|a| ev.transform_from_ntt_new(a), &|a, d| ev.transform_from_ntt(a, d), &|a| ev.transform_from_ntt_inplace(a));
         }
+        census_forms(out, &s, &cls, &c1, &c2, &prod, &plain, &relin);
         // ---------- (c) single-field corruptions of an otherwise valid operand must be refused by every operation
         let levels = s.levels();
         let q0 = s.level_qs(c1.parms_id())[0];
